@@ -417,6 +417,29 @@ def font_from_rules(passes, ipos, ncols, gattr=None, dirn=0):
     return data, model
 
 
+def gen_long_font(r):
+    """one substitution pass with a rule nearly as long as the slot map (30, 61..63 slots; MAX_SLOTS is 64) on one glyph column, whose action
+    walks over the rule with inserts, deletes and copies in between - the map register and the cursor at the far end of the map - and a
+    one-slot rule beside it; texts are runs of that glyph around the rule's length"""
+    ncols = 9
+    ln = r.choice([30, 61, 62, 63, 63])
+    pre = r.choice([0, 0, 1, 2])
+    act, kinds = heapgen.gen_action(r, pre, ln, max_ops=ln + r.choice([4, 20, 40]), allow=("next",) * 7 + ("insert", "insert", "delete", "put_copy", "assoc", "attr"))
+    act2, kinds2 = heapgen.gen_action(r, pre, pre + 1, max_ops=6)
+    rules = [(ln, pre, b"", bytes(act), [0] * ln), (pre + 1, pre, b"", bytes(act2), [0] * pre + [1])]
+    data, model = font_from_rules([(pre, r.choice([1, 3]), rules)], 1, ncols)
+    return data, {"model": model, "kind": "long", "len": ln, "pre": pre}
+
+
+def gen_long_text(r, desc):
+    ln = desc["len"]
+    n = r.choice([ln - 1, ln, ln, ln + 1, ln + 2, 70, 2 * ln + 3])
+    t = [0x61] * n
+    if r.random() < 0.3:
+        t[r.randrange(n)] = 0x62
+    return t
+
+
 def gen_jump_font(r, fixed=None, ret=None, ln=None, ml=None):
     """a substitution pass whose rule moves the cursor around the high-water mark and returns a long jump: the pattern is
     `b c c` (columns 1 2 2) or a variation, the action a short sequence of next / insert / delete that ends on or near the
